@@ -352,7 +352,14 @@ def run(rep, tier):
     c05.declare(rep)
     for r in ("C05.g", "C05.f", "C05.a", "C05.cuda", "C05.b", "C05.b-hilbert", "C05.d", "C05.e"):
         rep.rules.pop(r, None)
+    rep.rule("C15.pad", "Morton/Hilbert buffers built by a conversion are zero-initialised as a whole (the padding cells are read by dump and copy)", floor=4)
     c05.run_conversions(c14.only(rep), "quick")
+    # copying and assigning storage: no transfer into a buffer that may be null or too small (rules of C12)
+    from . import c12
+    c12.declare(rep)
+    for r in [r for r in rep.rules if r.startswith("C12.") and r not in ("C12.b", "C12.c")]:
+        rep.rules.pop(r, None)
+    c12.check_array(c14.only(rep), tier)
     rep.extra["harness_builds"] = total
     rep.extra["stacks_instantiated_for_diagnostics"] = nst
     return total
